@@ -209,6 +209,27 @@ impl FixtureDatabase {
             return Some(last_def.clone());
         }
 
+        // Still the same file: a fixture the module imports is a fixture of that module
+        // (a conftest.py's imports are handled by the walk below)
+        if (self.file_cache.contains_key(file_path) || file_path.exists())
+            && self.is_fixture_imported_in_file(fixture_name, file_path)
+        {
+            let mut visited = HashSet::new();
+            if let Some(def) = self.find_imported_fixture_definition(
+                fixture_name,
+                file_path,
+                &definitions,
+                &filter,
+                &mut visited,
+            ) {
+                info!(
+                    "Found fixture {} imported into the file itself (original: {:?})",
+                    fixture_name, def.file_path
+                );
+                return Some(def);
+            }
+        }
+
         // Priority 2: Search upward through conftest.py files
         let mut current_dir = file_path.parent()?;
 
@@ -537,6 +558,29 @@ impl FixtureDatabase {
             {
                 available_fixtures.push(def.clone());
                 seen_names.insert(fixture_name.clone());
+            }
+        }
+
+        // Still the same file: fixtures the module imports are fixtures of that module
+        if self.file_cache.contains_key(file_path) || file_path.exists() {
+            let mut visited = HashSet::new();
+            for fixture_name in self.get_imported_fixtures(file_path, &mut visited) {
+                if seen_names.contains(&fixture_name) {
+                    continue;
+                }
+                if let Some(definitions) = self.definitions.get(&fixture_name) {
+                    let mut visited = HashSet::new();
+                    if let Some(def) = self.find_imported_fixture_definition(
+                        &fixture_name,
+                        file_path,
+                        &definitions,
+                        &|_| true,
+                        &mut visited,
+                    ) {
+                        available_fixtures.push(def);
+                        seen_names.insert(fixture_name);
+                    }
+                }
             }
         }
 
